@@ -33,5 +33,35 @@ CHECKS.update({
   text="Every rule set of the scope (conflicting grammars included) x 4-8 input configurations (several inputs, no-eoi, duplicated no-eoi inputs as created by synthetic lookahead inputs) x rule attributes {all distinct, all equal} x optimizeTables is compiled with MinimizeDFA off and on; both table sets are run from every input index (the entry state the generated Parse functions use) on every token string <= L in lock-step: same shifts, reductions of rules with equal (lhs, length, action, type), same accept/error outcome and position, same non-termination.",
   note="Traces come from internal/tabinterp (transcription of the parser template, validated against generated code by C01 Layer B).",
   design="§5.C06"),
+ "C04": dict(
+  category="exploration",
+  technique="bounded exhaustive enumeration of operator grammars x precedence declarations x %prec markers; documented resolution rule applied to reference-LALR(1) cells; lock-step parse of all inputs",
+  text="(a) every subset (<=3) of operator rule shapes {E p E, E q E, p E, E p, E p E q E} over atom x x every assignment of x,p,q to {none, group 1, group 2} x every associativity per group x every %prec marker per rule, (b) every raw rule set of the tiny scope x every precedence declaration over its terminals: each lookahead-dependent cell of lalr.Compile's tables must equal the documented rule (rule precedence = %prec terminal else last terminal; higher wins; equal: left reduces, right shifts, nonassoc errors; undecided SR -> reported + shift; undecided RR -> reported + earlier rule) applied to the candidate actions of the reference LALR(1) automaton; SR/RR counts and error status exact; a reference LR parser driven by the documented resolutions is run in lock-step with the implementation tables on every input <= L (5 quick / 7 thorough).",
+  note="Cells with a shift and several reductions (statement silent on how pairwise decisions combine) are only required to pick a candidate or error, and counts are not compared for grammars containing such a cell (counted in evidence).",
+  design="§5.C04"),
+ "C07": dict(
+  category="exploration",
+  technique="bounded exhaustive enumeration of conflict families and tiny grammars x k=1..8; all token strings through the table interpreter (incl. deep-lookahead loop) vs CFG oracle",
+  text="A family of grammars whose reduce/reduce conflicts need 2..4 tokens (S: A u x | B u y, A: w, B: w for all words w,u over {a,b}; variants with a shared suffix nonterminal, a nullable symbol in the suffix, two conflicts sharing the lookahead automaton; eoi and no-eoi inputs) and every reduced grammar of the tiny scope are compiled with lalr(k), k=1..8 (2,3 for the tiny scope); for every successful compile every token string <= L (6/7) is parsed with the interpreter (transcription of parseFunc + resolveDeepLA) and accept/reject compared with the CFG oracle; UsedLADepth <= k.",
+  note="Compile errors are outside the property (it constrains successful compiles). Deep-lookahead decoding is a transcription of the template (C01 Layer B validates the interpreter on LALR(1) grammars; a Layer-B run for lalr(k) is part of the thorough tier when built).",
+  design="§5.C07"),
+ "C08": dict(
+  category="exploration",
+  technique="exhaustive enumeration of all lookahead-alternative sets (n<=3/4 over m<=3 predicates) x all 2^m truth assignments against the emitted decision list",
+  text="Every combination of n alternatives drawn from all ordered conjunctions of distinct possibly-negated predicates over m<=3 predicates is placed in one parser state of a host grammar and compiled with lalr.Compile; for accepted sets the emitted decision list (Cases/DefaultTarget, evaluated as the generated lookaheadRule does) must select, for every truth assignment satisfying exactly one alternative, that alternative; accepted sets must be mutually exclusive and consistently ordered (brute-force witness search).",
+  note="Sets that are exclusive and consistently ordered but rejected by the compiler are counted as incompleteness, not violations (the statement constrains accepted sets and requires rejection of bad ones). Generated-code evaluation of the list (template) is covered by reading Cases in the same order the template ranges over them.",
+  design="§5.C08"),
+ "C25": dict(
+  category="exploration",
+  technique="exhaustive enumeration of finite/co-finite sets and set-equation systems vs bitmask reference with Kleene iteration",
+  text="All ordered pairs of finite/co-finite subsets of {0..u-1} (u<=5 quick / 6 thorough) through Merge/Intersect/Complement/Equals with 7 reuse-buffer variants (incl. aliasing either operand where in-place filtering is permitted); every set-equation system buildable through util/set's API with <=3 nodes over {0,1,2}, 4 nodes over {0,1}, and expression systems up to 7 nodes, each solved with several scratch-buffer sizes: result must equal the least solution by SCC-wise Kleene iteration over bitmasks with an 'every other integer' bit; error iff a complement reaches itself.",
+  note="Reference is a 64-bit mask model; aliasing patterns the API does not promise are recorded as hazard outcome classes, not violations.",
+  design="§5.C25"),
+ "C27": dict(
+  category="exploration",
+  technique="exhaustive enumeration of text pairs; unified-diff parser/applier + LCS dynamic programming",
+  text="All ordered pairs of texts with <=4 lines over {a,b,c} and <=6 over {a,b} (quick; <=5/<=7 thorough) with/without trailing newline, periodic texts, and a long-run family (runs of 13..20 equal/deleted/inserted lines, up to 3-7 runs) through diff.LineDiff: the rendered diff is parsed strictly (hunk order, header line numbers and sizes, context lines), applied to the first text and must yield the second; the number of +/- lines must equal |a|+|b|-2*LCS; empty iff equal.",
+  note="Only LineDiff is exported, so the edit script is observed through the rendered text. Two known findings about the '... N lines skipped ...' abbreviation are listed in known_findings.json (by-design elision; header size counts the marker).",
+  design="§5.C27"),
 })
 NOT_APPLICABLE_REASON = {}
